@@ -20,7 +20,7 @@ Clause(m, ev) ==
   ELSE <<>>
 
 MonStep(m, ev) ==
-  [m EXCEPT !.bad = Clause(m, ev),
+  [m EXCEPT !.bad = IF m.bad # <<>> THEN m.bad ELSE Clause(m, ev),
             !.blocker = CASE ev.k = "hook_start" -> @ + 1 [] ev.k = "hook_end" -> @ - 1 [] OTHER -> @,
             !.last = CASE ev.k = "activity" -> ev.t
                        [] ev.k = "hook_end" /\ m.blocker = 1 -> ev.t    \* the idle period restarts here
